@@ -174,6 +174,15 @@ def r20_11(ctx):
                 ne_edge = tf if is_eq else tt
                 if bb in body.reachable(ne_edge) and bb not in body.reachable(0, removed_edges=[(sb, ne_edge)]):
                     ok = True
+            if not ok:
+                # `matches!(output.exit_code, ExitStatus::Detached)` / `match .. { Detached => continue, .. }`: a variant switch with a Detached arm
+                back_ = body.back_edges()
+                for sb, st in switches(body):
+                    ve, rvv = variant_edges(body, sb)
+                    if ve is None or "Detached" not in ve or "ExitStatus" not in (rvv.get("ty") or ""):
+                        continue
+                    if body.dominates(sb, bb) and bb not in set(explore(body, ve["Detached"], {}, removed_edges=back_).keys()):
+                        ok = True        # (explore follows the constant bool that `matches!` sets on each arm)
             if not ok and body is not run:
                 # the closure is the argument of a map() whose receiver passed a filter() that tests for Detached
                 for cb_, ct in run.calls():
